@@ -378,7 +378,7 @@ func c14Summarise(job c14Job, modelOK bool) gSummary {
 	}
 	hist := func(k string) { s.Hist = append(s.Hist, k) }
 	if deep {
-		s.Text = job.Gen.text() + fmt.Sprint(cs.Order, cs.Mode, cs.Seed)
+		s.Text = job.Gen.text() + fmt.Sprint(cs.Order, cs.Mode, cs.Seed, cs.EndInput)
 		s.Nontrivial = nrw > 0
 		total := 0
 		for _, n := range job.Gen.Segs {
@@ -397,7 +397,7 @@ func c14Summarise(job c14Job, modelOK bool) gSummary {
 		}
 		hist("deep/server=" + p.Server)
 	} else {
-		s.Text = p.text() + fmt.Sprint(cs.Order, cs.Mode, cs.Seed)
+		s.Text = p.text() + fmt.Sprint(cs.Order, cs.Mode, cs.Seed, cs.EndInput)
 		s.Nontrivial = true
 		hist(fmt.Sprintf("rw-depth=%02d", nrw))
 		for _, o := range p.Ops {
@@ -410,6 +410,19 @@ func c14Summarise(job c14Job, modelOK bool) gSummary {
 	hist("mode=" + cs.Mode + "/" + cs.Tag)
 	for _, h := range p.Handles {
 		hist("handle-kind=" + h.Kind)
+	}
+	if cs.EndInput > 0 && run.Fault == nil {
+		// END OF STREAM as an event: what the pipeline looked like when the input was closed
+		hist("end-of-stream/" + p.Server + "/mode=" + cs.Mode)
+		var go_, held, pend int
+		if n, _ := fmt.Sscanf(run.EndInfo, "gates-opened=%d calls-held=%d closes-pending=%d", &go_, &held, &pend); n == 3 {
+			hist(fmt.Sprintf("end-of-stream/gated/calls-held-when-input-closed=%d", held))
+			hist(fmt.Sprintf("end-of-stream/gated/closes-not-yet-answered-when-input-closed=%d", pend))
+			hist(fmt.Sprintf("end-of-stream/gated/gates-opened-before=%02d", min(go_, 10)))
+			if held > 0 && pend > 0 {
+				hist("end-of-stream/gated/" + p.Server + "/input-closed-with-calls-held-and-a-close-behind-them")
+			}
+		}
 	}
 	if cs.HoldMs > 0 {
 		switch {
@@ -468,6 +481,7 @@ func checkC14(c *lib.Ctx) {
 	r.Rule = "Small pipelines: d = 1…24 READ/WRITE requests on h = 1…4 handles (read-only, write-only and read-write opens; layouts: all CLOSEs at the end, handle by handle, shuffled; one read in twelve longer than 32768 bytes) followed by the CLOSEs without waiting for any reply, on both servers. Two programs in three also carry handle requests that are neither reads nor writes between the READ/WRITEs and the CLOSE of their handle: FSTAT, FSETSTAT (permissions; not on a read-only server) and, on directory handles (one handle in five), READDIR. Gated cases: every ReadAt/WriteAt (and every call of those other requests) is held; after the expected calls have started and a grace period of 25 ms (again after every completed CLOSE while calls are held) the harness asserts that no Close was entered that the pipeline cannot have reached, then lets the calls return in a chosen order (all feasible orders for d <= 4 (quick) / 6 (thorough), PRNG orders: uniform, fifo, lifo, earliest-held-longest). Unforced cases: nothing is held, every call (Close too) sleeps a PRNG time below 1.5 ms, or not at all. Duration: per server, a small pipeline (1…2 handles, 2…8 transfers and handle commands, every call held) and a deep one (3…300 transfers, the calls of the last 1…8 before the CLOSE held) in which — once every call the pipeline can start sits on its gate and the CLOSE waits behind them — the calls are kept there for 7 s (thorough: 7, 35 and 70 s; longer than any plausible timeout constant; a deliberate hold that is not charged to the hang budget and ends when the soft deadline of the run passes), no Close may be entered meanwhile, then the calls return in a chosen order and every other oracle applies; these cases run side by side with the rest. " +
 		"Deep pipelines (generated, not written out): n READ/WRITE requests of 1…8 bytes between two CLOSEs for n = 0…20 and 2^k-1, 2^k, 2^k+1 (k = 5…10 quick, 5…16 thorough) and 767…769, 1535…1537, 3071…3073; one handle, or 2…4 handles closed one after the other with the boundary value as the count since the previous CLOSE or as the running total; gated: only the calls of the last 1…8 requests before each CLOSE are held (all earlier ones return on their own), grace period and chosen return order as above; unforced: sleep / free. Deep pipelines with an FSTAT / FSETSTAT behind every 1st, 2nd, 3rd, 5th or 17th READ/WRITE (10 quick / 150 thorough per server). " +
 		"Server options: every case runs on a server started with one of the 24 (os-backed: ReadOnly x WithAllocator x WithMaxTxPacket absent/32768/65536 x WithServerWorkingDirectory, handles then opened by relative names) resp. 12 (request server: WithRSAllocator x WithRSMaxTxPacket x WithStartDirectory) option combinations, dealt from a shuffled deck per family so that every family of cases meets every combination (read-only servers: read-only opens only); the depths 256 and 512 (thorough: 255, 256, 257, 512 and 65536) are run gated under every combination. Schedules of pipelines of up to 300 requests are also replayed in the Lean pipeline model. " +
+		"END OF STREAM as an event of the schedule: the client pipelines transfers and CLOSEs and ends its request stream (half-close) without waiting for a reply — gated: small pipelines (1…3 handles, up to 12, or 30…49, transfers and handle commands, every call held) and deep ones (last 1…8 calls before each CLOSE held), the input is closed as soon as the whole stream has been taken in (calls held, CLOSEs waiting behind them) or after a PRNG number of gates has been opened, a grace period of 25 ms follows (7 s, thorough 7/35/70 s, in one case per server) during which no Close may be entered, then the calls return in the chosen order; unforced: input closed right after the last byte (quick per server: 90 + 16 + 120 cases); every oracle applies as in any other case, and Serve must return. " +
 		"Oracles on the global start/finish log: no Close entered while calls of earlier requests are held, 0 earlier reads/writes in flight at every Close entry, none starts later, between the set-up and the last reply the Close of an object is entered exactly as often as the stream holds CLOSE requests for it (no other request closes it), no call on an object of the request server finds the context of its OPEN request cancelled (handler objects record Request.Context() at open time), every request succeeds, final contents, the observed completion order is one the pipeline allows. non-trivial = at least one read/write precedes a CLOSE; distinct by (server, options, program or generator, order or sleep seed)"
 	thorough := c.Tier == "thorough"
 	c02Cfg = gCurCfg(c, "pipe", c02Cfg)
@@ -561,6 +575,7 @@ func checkC14(c *lib.Ctx) {
 			}
 		}
 		jobs = append(jobs, c14DeepJobs(c.Rand, thorough, grace)...)
+		jobs = append(jobs, c14EndJobs(c.Rand, thorough, grace)...)
 	}
 	sums := gRunBatches(c, "c14", jobs, 2000, modelOK, describe)
 	lines, impl := gMerge(r, sums, 3)
@@ -596,6 +611,11 @@ func c14LongHoldJobs(rng *rand.Rand, thorough bool, grace int) []json.RawMessage
 			g := c14Gen{Server: server, Opt: opt, Kinds: c14Kinds(rng, opt, 1), Segs: []int{[]int{3, 9, 40, 300}[rng.Intn(4)]}, Held: 1 + rng.Intn(8), Seed: rng.Int63()}
 			gp, hold := g.expand()
 			jobs = append(jobs, gJSON(c14Job{gCase: gCase{Mode: "gated", Order: randomOrder(c14HeldReqs(gp, hold), rng, styles[rng.Intn(len(styles))]), Grace: grace, HoldMs: ms, Tag: "long-hold-deep"}, Gen: &g}))
+			// the same duration spent AFTER THE END OF THE REQUEST STREAM (gCase.EndInput): a server that waits for its
+			// workers only so long once the client has stopped sending
+			h = 1 + rng.Intn(2)
+			p = c14Program(rng, server, deck.next(server), h, h+1+rng.Intn(8-h), "tail")
+			jobs = append(jobs, gJSON(gCase{Prog: p, Mode: "gated", Order: c02RandomOrder(p, rng, styles[rng.Intn(len(styles))]), Grace: grace, HoldMs: ms, EndInput: 1, Tag: "long-hold-after-end-of-stream"}))
 		}
 	}
 	return jobs
@@ -716,6 +736,72 @@ func c14DeepJobs(rng *rand.Rand, thorough bool, grace int) []json.RawMessage {
 				segs := c14Split(rng, d, h)
 				unforced(c14Gen{Server: server, Opt: opt, Kinds: c14Kinds(rng, opt, len(segs)), Segs: segs, Spread: rng.Intn(2) == 0, Seed: rng.Int63()}, mode)
 			}
+		}
+	}
+	return jobs
+}
+
+// c14EndJobs: END OF STREAM as an event of the schedule (gCase.EndInput). The client pipelines its transfers and the
+// CLOSEs and then ends its request stream without waiting for a single reply. Per server:
+//   - small pipelines (1…3 handles, up to 12 transfers and handle commands, every call held, all layouts): the input is
+//     closed at the earliest moment — the calls the pipeline could start sit on their gates, the CLOSEs wait behind them —
+//     or (one case in three) after a PRNG number of gates has been opened;
+//   - deep pipelines (only the calls of the last 1…8 requests before each CLOSE held);
+//   - unforced: nothing held, the handlers sleep a PRNG time or not at all, the input is closed right after the last
+//     byte of the stream.
+//
+// Oracles: no Close entered and no context cancelled while calls of earlier requests are held (grace period after the
+// end of the input), every request succeeds and is answered, final contents, Serve returns.
+func c14EndJobs(rng *rand.Rand, thorough bool, grace int) []json.RawMessage {
+	var jobs []json.RawMessage
+	styles := []string{"uniform", "fifo", "lifo", "first-last"}
+	layouts := []string{"tail", "grouped", "mixed"}
+	nSmall, nDeep, nFree := 90, 16, 120
+	if thorough {
+		nSmall, nDeep, nFree = 3000, 300, 6000
+	}
+	for _, server := range []string{"rs", "os"} {
+		deck := newC14Deck(rng)
+		for k := 0; k < nSmall; k++ {
+			h := 1 + rng.Intn(3)
+			d := h + rng.Intn(13-h)
+			if k%6 == 5 { // more than the pipeline takes in at once: the end of the stream arrives after some gates were opened
+				d = 30 + rng.Intn(20)
+			}
+			layout := layouts[k%3]
+			p := c14Program(rng, server, deck.next(server), h, d, layout)
+			order := c02RandomOrder(p, rng, styles[rng.Intn(len(styles))])
+			end := 1
+			if k%3 == 2 && len(order) > 0 {
+				end = 1 + rng.Intn(len(order)+1)
+			}
+			jobs = append(jobs, gJSON(gCase{Prog: p, Mode: "gated", Order: order, Grace: grace, EndInput: end, Tag: "end-of-stream/" + layout}))
+		}
+		deck = newC14Deck(rng)
+		for k := 0; k < nDeep; k++ {
+			opt := deck.next(server)
+			h := 1 + rng.Intn(3)
+			var segs []int
+			for i := 0; i < h; i++ {
+				segs = append(segs, []int{1, 3, 9, 40, 300, 1025}[rng.Intn(6)])
+			}
+			g := c14Gen{Server: server, Opt: opt, Kinds: c14Kinds(rng, opt, h), Segs: segs, Spread: rng.Intn(2) == 0, Held: 1 + rng.Intn(8), Seed: rng.Int63()}
+			gp, hold := g.expand()
+			order := randomOrder(c14HeldReqs(gp, hold), rng, styles[rng.Intn(len(styles))])
+			end := 1
+			if k%2 == 1 && len(order) > 0 {
+				end = 1 + rng.Intn(len(order)+1)
+			}
+			jobs = append(jobs, gJSON(c14Job{gCase: gCase{Mode: "gated", Order: order, Grace: grace, EndInput: end, Tag: "end-of-stream/deep"}, Gen: &g}))
+		}
+		deck = newC14Deck(rng)
+		for k := 0; k < nFree; k++ {
+			p := c14Program(rng, server, deck.next(server), 1+rng.Intn(4), 1+rng.Intn(24), layouts[rng.Intn(3)])
+			mode := "sleep"
+			if k%5 == 4 {
+				mode = "free"
+			}
+			jobs = append(jobs, gJSON(gCase{Prog: p, Mode: mode, Seed: rng.Int63(), EndInput: 1, Tag: "end-of-stream/unforced"}))
 		}
 	}
 	return jobs
